@@ -214,7 +214,7 @@ inline void crash_dump(const char *kind) {
 }
 extern "C" inline void pbt_sig(int sig) {
   crash_dump(sig == SIGSEGV ? "SIGSEGV" : sig == SIGABRT ? "SIGABRT" : sig == SIGBUS ? "SIGBUS"
-             : sig == SIGFPE ? "SIGFPE" : sig == SIGALRM ? "SIGALRM(hang)" : "signal");
+             : sig == SIGFPE ? "SIGFPE" : sig == SIGILL ? "SIGILL(trap)" : sig == SIGALRM ? "SIGALRM(hang)" : "signal");
   signal(sig, SIG_DFL);
   raise(sig);
 }
@@ -230,6 +230,9 @@ struct CheckDef {
   std::function<Verdict(const std::string &)> run_text;
 };
 inline std::vector<CheckDef> &registry() { static std::vector<CheckDef> r; return r; }
+// checks whose failing cases are expensive to re-run (waits with ceilings) can opt out of shrinking
+inline std::set<std::string> &no_shrink() { static std::set<std::string> s; return s; }
+inline void disable_shrinking(const std::string &name) { no_shrink().insert(name); }
 
 inline std::string json_escape(const std::string &s) {
   std::string o;
@@ -267,6 +270,7 @@ void add_check(const std::string &name, int base_cases, int max_size,
     p.maxSuccess = cases;
     p.maxSize = max_size;
     p.maxDiscardRatio = 20;
+    p.disableShrinking = no_shrink().count(name) != 0;
     rc::detail::TestMetadata md;
     md.id = name;
     md.description = name;
@@ -441,6 +445,7 @@ inline int driver_main(int argc, char **argv) {
   signal(SIGABRT, pbt_sig);
   signal(SIGBUS, pbt_sig);
   signal(SIGFPE, pbt_sig);
+  signal(SIGILL, pbt_sig);  // clang -fsanitize=bounds traps with ud2
   signal(SIGALRM, pbt_sig);
   if (__sanitizer_set_death_callback) __sanitizer_set_death_callback(pbt_san_death);
 
